@@ -47,6 +47,8 @@ pub enum Beh {
     Mutated(String, String),
     /// accept the connection and close it without answering
     Hangup,
+    /// a valid acceptance whose body breaks off half-way (the tower dies while answering)
+    CutBody,
 }
 
 #[derive(Clone, Debug)]
@@ -344,6 +346,16 @@ impl FakeTower {
                 http_reply(200, v.to_string().as_bytes(), "application/json")
             }
             Beh::Hangup => return None,
+            Beh::CutBody => {
+                // the tower took the appointment on (it will say so when asked again) but its answer never fully arrives
+                let mut st = self.state.lock().unwrap();
+                st.slots = slots;
+                st.accepted.push((loc.clone(), user_sig.clone()));
+                let full = http_reply(200, valid(&self.sk, slots, expiry).to_string().as_bytes(), "application/json");
+                let body_start = full.windows(4).position(|w| w == b"\r\n\r\n").map(|p| p + 4).unwrap_or(0);
+                let keep = body_start + (full.len() - body_start) / 2;
+                full[..keep].to_vec()
+            }
             other => generic_reply(&other),
         };
         if kill_after {
@@ -859,7 +871,7 @@ async fn scenario_c05(seed: u64, id: u64, base: &Path, r: &mut PropReport) {
     for _ in 0..n_towers {
         towers.push(FakeTower::start(&mut rng).await);
     }
-    let behs = [Beh::Accept, Beh::Accept, Beh::SubscriptionError, Beh::ApiError(35), Beh::ApiError(4), Beh::NonJson, Beh::WrongShape, Beh::WrongSig, Beh::MalformedSig, Beh::Empty, Beh::Hangup, Beh::ServerError];
+    let behs = [Beh::Accept, Beh::Accept, Beh::SubscriptionError, Beh::ApiError(35), Beh::ApiError(4), Beh::NonJson, Beh::WrongShape, Beh::WrongSig, Beh::MalformedSig, Beh::Empty, Beh::Hangup, Beh::CutBody, Beh::ServerError];
     let n_rev = 3 + rng.usize(5);
     let mut script_desc = Vec::new();
     for t in &towers {
